@@ -1387,3 +1387,73 @@ def ord6(ctx) -> List[Ob]:
                                f"{m.qualname} tests self.{a} ('{A.unparse(cond_reads[a])[:50]}') and also writes it (line {A.lineno(writes[a])}): what the method answers depends on what an earlier call left on the object - a remembered result is returned although the graph / input changed, or a step is skipped the second time"))
     out.append(ok("ORD-6", "<library>", "methods scanned", "numba_scfg", f"{sum(len(c.methods) for c in ctx.prog.all_classes())} methods", nontrivial=False))
     return out
+
+
+@rule("ORD-7", 1, "what runs only when logging / debugging is switched on changes nothing the program uses: a block guarded by `isEnabledFor(..)`, `__debug__` or a logger level holds logging calls and bindings of names that are read inside the block only; a refusal (NotImplementedError) raised by the source front end is not caught by a handler for one of its base classes")
+def ord7(ctx) -> List[Ob]:
+    out: List[Ob] = []
+    MUT = {"sort", "reverse", "append", "extend", "insert", "pop", "remove", "clear", "add", "discard", "update", "setdefault", "popleft", "appendleft", "difference_update", "intersection_update"}
+    n = 0
+    for fn in ctx.prog.functions:
+        for st in A.walk_no_nested(fn.node):
+            if not isinstance(st, ast.If):
+                continue
+            t = A.unparse(st.test)
+            if not ("isEnabledFor" in t or "__debug__" in t or "getEffectiveLevel" in t or ".level " in t or t.endswith(".level")):
+                continue
+            n += 1
+            key = "debug-only block: " + A.alpha_key(st.test)[:50]
+            where = ctx.where(fn, st)
+            inside = {id(x) for b in st.body for x in ast.walk(b)}
+            probs = []
+            for b in st.body:
+                for x in ast.walk(b):
+                    if isinstance(x, ast.Call) and isinstance(x.func, ast.Attribute) and x.func.attr in MUT and isinstance(x.func.value, (ast.Name, ast.Attribute)) and not A.unparse(x.func.value).startswith(("_logger", "logger", "logging")):
+                        base = x.func.value
+                        root = base
+                        while isinstance(root, ast.Attribute):
+                            root = root.value
+                        # a container created inside the block may be filled there
+                        created = isinstance(root, ast.Name) and any(isinstance(y, ast.Name) and y.id == root.id and isinstance(y.ctx, ast.Store) and id(y) in inside for y in ast.walk(fn.node)) and not any(isinstance(y, ast.Name) and y.id == root.id and isinstance(y.ctx, ast.Store) and id(y) not in inside for y in ast.walk(fn.node))
+                        if not created:
+                            probs.append(f"{A.unparse(x)[:50]} changes {A.unparse(base)[:30]} in place")
+                    elif isinstance(x, (ast.Assign, ast.AugAssign, ast.AnnAssign)):
+                        tg = x.targets if isinstance(x, ast.Assign) else [x.target]
+                        for t_ in tg:
+                            if isinstance(t_, (ast.Attribute, ast.Subscript)):
+                                probs.append(f"{A.unparse(t_)[:40]} is written")
+                            elif isinstance(t_, ast.Name):
+                                outside_reads = [y for y in ast.walk(fn.node) if isinstance(y, ast.Name) and y.id == t_.id and isinstance(y.ctx, ast.Load) and id(y) not in inside]
+                                if outside_reads:
+                                    probs.append(f"{t_.id} is bound here and read outside the block")
+            if probs:
+                out.append(bad("ORD-7", fn.qualname, key, where, f"the block that runs only under '{t[:50]}' is not free of effects: {probs[0]} - the result differs between a process that logs and one that does not (importing the renderer switches debug logging on)"))
+            else:
+                out.append(ok("ORD-7", fn.qualname, key, where, "logging only", nontrivial=False))
+    # refusals of the source front end propagate
+    for fn in ctx.prog.functions:
+        if not fn.module.name.endswith("ast_transforms"):
+            continue
+        for tr in A.walk_no_nested(fn.node):
+            if not isinstance(tr, ast.Try):
+                continue
+            calls = [A.unparse(c.func) for b in tr.body for c in ast.walk(b) if isinstance(c, ast.Call)]
+            if not any(("AST2SCFG" in c or "transform" in c or "handle_" in c or "codegen" in c) for c in calls):
+                continue
+            for h in tr.handlers:
+                names = []
+                if h.type is None:
+                    names = ["BaseException"]
+                else:
+                    names = [A.unparse(e).split(".")[-1] for e in (h.type.elts if isinstance(h.type, ast.Tuple) else [h.type])]
+                hit = [x for x in names if x in ("RuntimeError", "Exception", "BaseException", "NotImplementedError")]
+                reraises_all = any(isinstance(x, ast.Raise) and x.exc is None for x in h.body) and not any(isinstance(x, ast.Return) for b in h.body for x in ast.walk(b))
+                n += 1
+                key = "handler around the front end: " + ",".join(names)
+                if hit and not reraises_all:
+                    out.append(bad("ORD-7", fn.qualname, key, ctx.where(fn, h), f"'except {', '.join(names)}' around {calls[0][:40]} also catches NotImplementedError (a RuntimeError): a function the front end refuses is answered in another way instead of being refused"))
+                else:
+                    out.append(ok("ORD-7", fn.qualname, key, ctx.where(fn, h), "does not intercept a refusal", nontrivial=False))
+    out.append(ok("ORD-7", "<module>", "census of debug-only blocks and front-end handlers", "numba_scfg:1", f"{n} site(s)", nontrivial=False))
+    return out
+
